@@ -207,6 +207,9 @@ def compare_path(real, ref, M, tol=1e-6):
             if not (min(abs(p - qm) for p in pts) <= tol * size * 10):
                 return 'quadrant point %r of the ellipse is not on the path' % qm
         return None
+    # a zero-length line (a rounded rect whose radius is half a side) carries no geometry: its presence is not prescribed
+    nz = lambda L_: [s_ for s_ in L_ if not (isinstance(s_, sp.Line) and abs(s_.end - s_.start) <= 1e-9 * (1 + abs(s_.start)))]      # noqa
+    real, ref = nz(real), nz(ref)
     if len(real) != len(ref):
         return 'expected %d segments, got %d: %r' % (len(ref), len(real), real)
     for a, b in zip(real, ref):
